@@ -554,3 +554,42 @@ func upperBoundTests(fn *ssa.Function) []lenBound {
 	}
 	return out
 }
+
+// nodeIdExactMatch: every module implementation of LoadByNodeId selects records
+// by exact equality of the node ID (no case folding, trimming or prefix match).
+func nodeIdExactMatch(c *Ctx, rule string) {
+	p, r := c.P, c.R
+	r.Rule(rule, "node-ID lookups are exact: in every module implementation of NodeIdLoader.LoadByNodeId the stored NodeId and the requested one are compared with ==; no strings.* transformation or fuzzy comparison (EqualFold, ToLower, TrimSpace, HasPrefix, Contains) is applied to either")
+	n := 0
+	for _, fn := range p.ModuleFuncs() {
+		if fn.Name() != "LoadByNodeId" || fn.Blocks == nil || fn.Signature.Recv() == nil {
+			continue
+		}
+		n++
+		bad := ""
+		isNodeId := func(v ssa.Value) bool {
+			v = core.Strip(v)
+			if cc, _ := core.CallResult(v); cc != nil && (cc.Common().IsInvoke() && cc.Common().Method.Name() == "GetNodeId" || strings.HasSuffix(core.CalleeName(cc.Common()), ".GetNodeId")) {
+				return true
+			}
+			return strings.TrimPrefix(core.PathOf(v).Last(), "&") == "NodeId"
+		}
+		for _, f := range append([]*ssa.Function{fn}, fn.AnonFuncs...) {
+			for _, ci := range core.AllCalls(f) {
+				nm := core.CalleeName(ci.Common())
+				if !strings.HasPrefix(nm, "strings.") && !strings.HasPrefix(nm, "bytes.") && !strings.HasPrefix(nm, "unicode") {
+					continue
+				}
+				for _, a := range ci.Common().Args {
+					if isNodeId(a) {
+						bad = nm + " applied to the node ID at " + p.Pos(ci.Pos())
+					}
+				}
+			}
+		}
+		r.Check(bad == "", rule, core.FuncName(fn)+" node-ID comparison", p.Pos(fn.Pos()), "exact equality", bad+": records of a different node (an ID differing only in case, spacing, ...) are returned for this node ID")
+	}
+	if n == 0 {
+		r.OK(rule, "LoadByNodeId implementations", "", "none in the module")
+	}
+}
